@@ -292,6 +292,35 @@ func runAliasCluster(sc *aliasScenario) (res aliasResult) {
 					return
 				}
 				ob = []interface{}{"code", cliCode(vc.put(op[1].(string), hexKey(op[2]), st.bufs[i]))}
+			case "putbufdefer":
+				// a pipelined Put of a caller's buffer; the caller reuses the buffer between Put and Exec
+				i, pos, b := int(num(op[3])), int(num(op[4])), byte(num(op[5]))
+				if i >= len(st.bufs) {
+					ob = []interface{}{"skip", "nobuf"}
+					return
+				}
+				key := hexKey(op[2])
+				dm, err := vc.pick(op[1].(string), key)
+				if err != nil {
+					ob = []interface{}{"code", cliCode(err)}
+					return
+				}
+				p, err := dm.Pipeline()
+				if err != nil {
+					ob = []interface{}{"code", cliCode(err)}
+					return
+				}
+				f, err := p.Put(vc.ctx, key, st.bufs[i])
+				if err == nil {
+					if pos < len(st.bufs[i]) {
+						st.bufs[i][pos] = b
+					}
+					if err = p.Exec(vc.ctx); err == nil {
+						err = f.Result()
+					}
+				}
+				p.Close()
+				ob = []interface{}{"code", cliCode(err)}
 			case "get":
 				g, err := vc.get(op[1].(string), hexKey(op[2]))
 				if err != nil {
